@@ -183,7 +183,7 @@ def apply_model(sym, n, f, vals, mut_idx, st):
         if last == "is_err":
             return V(("not", ("is", r0, "Ok")))
         if last in ("ok", "err", "map", "map_err", "unwrap_or", "unwrap_or_default", "unwrap_or_else", "and_then",
-                    "unwrap", "expect", "map_or"):
+                    "unwrap", "expect", "map_or", "map_or_else"):
             out = []
             for s, is_ok in fork_is(sym, st, r0, "Ok"):
                 pay = mk_payload(r0, "Ok", "0")
@@ -206,6 +206,8 @@ def apply_model(sym, n, f, vals, mut_idx, st):
                     out += sym.apply(vals[1], [pay], s, n) if is_ok else [(s, (VAL, err(epay)))]
                 elif last == "map_or":
                     out += sym.apply(vals[2], [pay], s, n) if is_ok else [(s, (VAL, vals[1]))]
+                elif last == "map_or_else":
+                    out += sym.apply(vals[2], [pay], s, n) if is_ok else sym.apply(vals[1], [epay], s, n)
                 elif last in ("unwrap", "expect"):
                     if is_ok:
                         out.append((s, (VAL, pay)))
@@ -273,6 +275,12 @@ def apply_model(sym, n, f, vals, mut_idx, st):
         for s, emp in sym.fork_bool(st, ("empty", vals[0])):
             out.append((s, (VAL, NONE if emp else some(("index", vals[0], lit_int(0))))))
         return out
+
+    # ---- constant folding over literals: "at ".len(), ')'.len_utf8() -------------------------------------------------
+    if p == "core::str::len" and len(vals) == 1 and vals[0][0] == "lit" and vals[0][1] == "str":
+        return V(lit_int(len(vals[0][2].encode("utf8"))))
+    if last == "len_utf8" and len(vals) == 1 and vals[0][0] == "lit" and vals[0][1] == "char":
+        return V(lit_int(len(vals[0][2].encode("utf8"))))
 
     # ---- strings / slices ------------------------------------------------------------------------------------------
     if last == "is_empty" and len(vals) == 1 and not mut_idx:
